@@ -95,6 +95,49 @@ impl Check for C09 {
             k += stride;
         }
     }
+    /// A fifth way for a connection to end: its own task fails while forwarding a message (the
+    /// payload cannot be re-encoded for its version). Whatever one thinks of that cause (it is
+    /// C11's known finding), the broker must still release the connection.
+    fn once(&self, ctx: &Ctx, out: &mut Outcome) {
+        use aldrin_core::message::*;
+        for vv in [14u32, 18] {
+            for kind in ["CallFunction", "EmitEvent", "ItemReceived"] {
+                let Ok(s) = super::c11::setup(vv, 20) else { continue };
+                let super::c11::Setup { mut rig, victim, abuser, svc, chan_to_victim, .. } = s;
+                let svc2 = rig.model().svcs.values().find(|x| x.owner == abuser).map(|x| x.cookie).unwrap();
+                let msg: Message = match kind {
+                    "CallFunction" => CallFunction { serial: 900, service_cookie: svc, function: 0, value: super::c11::ill_formed() }.into(),
+                    "EmitEvent" => EmitEvent { service_cookie: svc2, event: 0, value: super::c11::ill_formed() }.into(),
+                    _ => SendItem { cookie: chan_to_victim, value: super::c11::ill_formed() }.into(),
+                };
+                let real = rig.cands[0].bind.input_to_real(&msg);
+                rig.conns[abuser].end.push(real);
+                let t = rig.conns[abuser].task;
+                rig.dx.run_task(t);
+                rig.settle();
+                out.eval();
+                out.count("connection_task_error_probes", 1);
+                if !rig.conns[victim].end.peer_closed() {
+                    out.count("connection_task_error_probe_recipient_survived", 1);
+                    rig.dx.shutdown();
+                    continue;
+                }
+                // the recipient's task has ended by itself: it must be gone from the books
+                #[cfg(feature = "hooks")]
+                if let Some(snap) = rig.snapshot() {
+                    let abuser_objs = 1;
+                    if snap.conns != 1 || snap.objs != abuser_objs || !snap.inconsistencies.is_empty() {
+                        out.violation(
+                            "ended-connection-not-released",
+                            format!("the connection task of a 1.{} connection ended with an error while forwarding {}, but the broker still holds {} connections / {} objects / {} calls (inconsistencies: {:?})", vv, kind, snap.conns, snap.objs, snap.function_calls, snap.inconsistencies),
+                            serde_json::json!({"probe": kind, "victim_version": vv, "seed": ctx.seed}),
+                        );
+                    }
+                }
+                rig.dx.shutdown();
+            }
+        }
+    }
     fn gates(&self, _tier: Tier, merged: &Outcome) -> Vec<String> {
         let mut g = Vec::new();
         for w in WAYS {
